@@ -10,7 +10,9 @@ package checks
 // compared by kind (numbers with px == unitless, number lists, colours as sRGB, text modulo collapsible space).
 
 import (
+	"bytes"
 	"fmt"
+	"io"
 	"math"
 	"strconv"
 	"strings"
@@ -944,9 +946,15 @@ func genSVGDoc(r *core.Rand) string {
 		case k == 7:
 			b.WriteString("<!-- " + r.Pick([]string{"comment", "a -> b", ""}) + " -->")
 		case k == 8:
-			b.WriteString("<metadata><rdf:RDF xmlns:rdf=\"http://www.w3.org/1999/02/22-rdf-syntax-ns#\"><rdf:li>x</rdf:li></rdf:RDF></metadata>")
+			b.WriteString(r.Pick([]string{
+				"<metadata><rdf:RDF xmlns:rdf=\"http://www.w3.org/1999/02/22-rdf-syntax-ns#\"><rdf:li>x</rdf:li></rdf:RDF></metadata>",
+				// self-closing descendants inside a skipped element, as editors write them
+				"<metadata><rdf:RDF xmlns:rdf=\"http://www.w3.org/1999/02/22-rdf-syntax-ns#\"><rdf:Work rdf:about=\"\"><rdf:format>image/svg+xml</rdf:format><rdf:type rdf:resource=\"http://purl.org/dc/dcmitype/StillImage\"/></rdf:Work></rdf:RDF></metadata>",
+				"<metadata><a/><b><c/></b><d/>text</metadata>",
+				"<metadata/>",
+			}))
 		case k == 9 && foreign:
-			b.WriteString(r.Pick([]string{"<ink:namedview id=\"nv\" ink:zoom=\"1.0\"/>", "<ink:guide><ink:p>1</ink:p></ink:guide>"}))
+			b.WriteString(r.Pick([]string{"<ink:namedview id=\"nv\" ink:zoom=\"1.0\"/>", "<ink:guide><ink:p>1</ink:p></ink:guide>", "<ink:namedview id=\"nv\"><ink:grid type=\"xygrid\"/><ink:guide ink:p=\"1\"/></ink:namedview>", "<ink:a><ink:b/><ink:c><ink:d/></ink:c></ink:a>"}))
 		case k == 10:
 			b.WriteString("<defs><linearGradient id=\"g1\" x1=\"0%\" x2=\"100.0%\"><stop offset=\"0\" stop-color=\"#FFFFFF\"/><stop offset=\"1.0\" stop-color=\"black\" stop-opacity=\".50\"/></linearGradient></defs>")
 		case k == 13:
@@ -993,7 +1001,19 @@ func c05Minify(doc string, inline bool) (string, error, string) {
 		if inline {
 			params = map[string]string{"inline": "1"}
 		}
-		m := minify.New() // no CSS minifier: style content must pass through
+		// the style minifier is an identity stub (style content passes through byte for byte) that watches how it is
+		// called: a style sheet (content with braces) is never handed over in inline mode - whatever mode the
+		// SVG document itself was embedded in
+		m := minify.New()
+		m.AddFunc("text/css", func(_ *minify.M, w io.Writer, r io.Reader, p map[string]string) error {
+			b, _ := io.ReadAll(r)
+			sheet := bytes.ContainsAny(b, "{}")
+			if sheet && p["inline"] == "1" {
+				pan = "STYLEPARAMS: a style element's content was given to the style minifier with inline=1: " + core.Trunc(string(b), 60)
+			}
+			_, err := w.Write(b)
+			return err
+		})
 		sm := &msvg.Minifier{}
 		// history: the same minifier object has just handled a document in the other mode (as happens when a
 		// registry serves both HTML with inline SVG and stand-alone SVG files)
